@@ -6,6 +6,8 @@ import LogosModel.Utf8Closed
 import LogosModel.Equiv
 import LogosModel.Priority
 import LogosModel.Attr
+import LogosModel.Bump
+import LogosModel.Source
 import Std.Data.HashSet
 /-!
 # Line-protocol driver (untrusted glue: parsing, closure search, printing)
@@ -328,6 +330,25 @@ def attrAnswer (flag : String) (toks : List String) : String :=
   let errs := ",".intercalate (d.errors.map attrErrStr)
   s!"prio={d.priority.isSome} cb={d.callback.isSome} ag={d.allowGreedy.isSome} ign={d.ignoreGroups.length} errs={errs}"
 
+/-! ## C15 / C05: library-level models -/
+
+def bumpAnswer (mode hexsrc st en n : String) : String :=
+  let src := unhex hexsrc
+  let isB : Nat → Bool := if mode == "s" then isBoundary src else isBBytes src.length
+  match bumpFixed isB ⟨st.toNat!, en.toNat!⟩ n.toNat! with
+  | .ok s => s!"ok {s.start} {s.stop}"
+  | .panic s => s!"panic {s.start} {s.stop}"
+
+def readAnswer (hexsrc off size : String) : String :=
+  let src := unhex hexsrc
+  let n := if size.toNat! == 0 then 1 else size.toNat!
+  let a := readChunk src off.toNat! n
+  let b := readSafe src off.toNat! n
+  if a != b then "MODELDIFF" else
+  match a with
+  | some c => s!"some:{hexOf c}"
+  | none => "none"
+
 partial def run (h : IO.FS.Stream) (out : IO.FS.Stream) (cur : Case) : IO Unit := do
   let line ← h.getLine
   if line.isEmpty then return ()
@@ -352,6 +373,12 @@ partial def run (h : IO.FS.Stream) (out : IO.FS.Stream) (cur : Case) : IO Unit :
   | "GERR" :: _ => run h out { cur with gerr := cur.gerr + 1 }
   | "CB" :: i :: k :: _ => run h out { cur with cbs := cur.cbs.setIfInBounds i.toNat! k.toNat! }
   | "ERRCB" :: v :: _ => run h out { cur with errCb := v == "1" }
+  | ["Q", "BUMP", mode, hexsrc, st, en, n] =>
+    out.putStrLn s!"{cur.name} BUMP {mode} {hexsrc} {st} {en} {n} : {bumpAnswer mode hexsrc st en n}"
+    run h out cur
+  | ["Q", "READ", hexsrc, off, size] =>
+    out.putStrLn s!"{cur.name} READ {hexsrc} {off} {size} : {readAnswer hexsrc off size}"
+    run h out cur
   | "Q" :: "ATTR" :: flag :: toks =>
     out.putStrLn s!"{cur.name} ATTR {flag} {" ".intercalate toks} : {attrAnswer flag toks}"
     run h out cur
